@@ -45,14 +45,15 @@ structure Quote4 where
   qSrc : Bytes
   qDst : Bytes
   qId : Nat
+  qProto : Nat           -- protocol field of the quoted header: part of the probe's flow
   qL4 : Nat              -- offset of the quoted transport header
 deriving Repr, DecidableEq
 
 def quote4 (p : Bytes) (l4 : Nat) : Option Quote4 :=
-  match u8 p l4, u8 p (l4 + 1), u8 p (l4 + 8), u16 p (l4 + 8 + 4), raw p (l4 + 8 + 12) 4, raw p (l4 + 8 + 16) 4 with
-  | some ty, some co, some c0, some id, some s, some d =>
-    some { icmpType := ty, icmpCode := co, qSrc := s, qDst := d, qId := id, qL4 := l4 + 8 + (c0 % 16) * 4 }
-  | _, _, _, _, _, _ => none
+  match u8 p l4, u8 p (l4 + 1), u8 p (l4 + 8), u16 p (l4 + 8 + 4), u8 p (l4 + 8 + 9), raw p (l4 + 8 + 12) 4, raw p (l4 + 8 + 16) 4 with
+  | some ty, some co, some c0, some id, some pr, some s, some d =>
+    some { icmpType := ty, icmpCode := co, qSrc := s, qDst := d, qId := id, qProto := pr, qL4 := l4 + 8 + (c0 % 16) * 4 }
+  | _, _, _, _, _, _, _ => none
 
 /-! ## Per-variant genuineness. `sent` = the probes recorded so far. -/
 
@@ -69,7 +70,7 @@ def genuineIcmp4TE (c : IcmpCfg) (sent : List Sent) (t : Nat) (a p : Bytes) : Bo
       match u8 p q.qL4, u16 p (q.qL4 + 4), u16 p (q.qL4 + 6) with
       | some ety, some eid, some eseq =>
         v.outerSrc = a && v.outerProto = 1 && v.outerFrag = 0 && q.icmpType = 11 &&
-        q.qSrc = c.localA && q.qDst = c.target && (ety = 8 || ety = 0) && eid = c.echoId && eseq = t &&
+        q.qSrc = c.localA && q.qDst = c.target && q.qProto = 1 && (ety = 8 || ety = 0) && eid = c.echoId && eseq = t &&
         sentTTL sent t && c.min ≤ t && t ≤ c.max
       | _, _, _ => false
 
@@ -108,7 +109,7 @@ def genuineUdp4 (c : UdpCfg) (sent : List Sent) (t : Nat) (a : Bytes) (dest : Bo
       | some (sp, dp) =>
         v.outerSrc = a && v.outerProto = 1 && v.outerFrag = 0 &&
         ((q.icmpType = 11 && q.icmpCode = 0) || q.icmpType = 3) &&
-        q.qDst = c.target && dp = c.tport && (c.loosen || (q.qSrc = c.localA && sp = c.lport)) &&
+        q.qProto = 17 && q.qDst = c.target && dp = c.tport && (c.loosen || (q.qSrc = c.localA && sp = c.lport)) &&
         sent.any (fun s => s.ttl = t && s.id = q.qId) &&
         (dest == decide (a = c.target))
 
@@ -123,7 +124,7 @@ def genuineTcpQuoted (c : TcpCfg) (sent : List Sent) (t : Nat) (a p : Bytes) : B
       match portsAt p q.qL4, u32 p (q.qL4 + 4) with
       | some (sp, dp), some sq =>
         v.outerSrc = a && v.outerProto = 1 && v.outerFrag = 0 && q.icmpType = 11 && q.icmpCode = 0 &&
-        q.qDst = c.target && dp = c.tport && (c.loosen || (q.qSrc = c.localA && sp = c.lport)) &&
+        q.qProto = 6 && q.qDst = c.target && dp = c.tport && (c.loosen || (q.qSrc = c.localA && sp = c.lport)) &&
         sent.any (fun s => s.ttl = t && s.id = q.qId && s.seq = sq)
       | _, _ => false
 
@@ -159,7 +160,7 @@ def genuineSackQuoted (c : SackCfg) (sent : List Sent) (t : Nat) (a : Bytes) (de
       match portsAt p q.qL4, u32 p (q.qL4 + 4) with
       | some (sp, dp), some sq =>
         v.outerSrc = a && v.outerProto = 1 && v.outerFrag = 0 && q.icmpType = 11 && q.icmpCode = 0 &&
-        q.qDst = c.target && dp = c.tport && (c.loosen || (q.qSrc = c.localA && sp = c.lport)) &&
+        q.qProto = 6 && q.qDst = c.target && dp = c.tport && (c.loosen || (q.qSrc = c.localA && sp = c.lport)) &&
         (sq + 4294967296 - c.isn % 4294967296) % 4294967296 = t &&
         sentTTL sent t && c.min ≤ t && t ≤ c.max && (dest == decide (a = c.target))
       | _, _ => false
@@ -251,7 +252,7 @@ def genuineIcmp6 (c : IcmpCfg) (sent : List Sent) (t : Nat) (a : Bytes) (dest : 
       | some q =>
         match u8 p q.qL4, u16 p (q.qL4 + 4), u16 p (q.qL4 + 6) with
         | some ety, some eid, some eseq =>
-          v.outerSrc = a && v.upper = 58 && q.icmpType = 3 && q.qSrc = c.localA && q.qDst = c.target &&
+          v.outerSrc = a && v.upper = 58 && q.icmpType = 3 && q.qSrc = c.localA && q.qDst = c.target && q.qNh = 58 &&
           (ety = 128 || ety = 129) && eid = c.echoId && eseq = t && sentTTL sent t && c.min ≤ t && t ≤ c.max
         | _, _, _ => false
 
